@@ -1,11 +1,11 @@
 (* C13 - reading a graph never changes it: reads are pure and repeatable.
    Property theorems only.  The model is Purity/Model.v over Dataset/Model.v:
-   the reads that have a write on their path in graph.py (triples / quads /
-   __contains__ through ConjunctiveGraph._graph, Dataset.graphs()) are
-   [ds -> ds * out] functions; serialisers, SPARQL engine, rdflib.compare,
-   slicing and iteration are opaque reads whose purity holds in the model BY
-   CONSTRUCTION - for them only the snapshot runs of harness/c13.py speak
-   (hence "_partial" on the run-level theorem).
+   the reads whose path in graph.py goes through ConjunctiveGraph._graph
+   (triples / quads / __contains__) or through a full pass of
+   Dataset.graphs() are [ds -> ds * out] functions; serialisers, SPARQL
+   engine, rdflib.compare, slicing and iteration are opaque reads whose purity
+   holds in the model BY CONSTRUCTION - for them only the snapshot runs of
+   harness/c13.py speak.
    [R d sp]: d is related to the C02 specification state sp (quads equal, no
    union-only triples, known names = listed names); every state reached by a
    history of writes is (C13_reachable).  [names d g]: g is the default graph
@@ -19,10 +19,11 @@ Theorem C13_reachable : forall b ops,
 Proof. exact reachable_R. Qed.
 Print Assumptions C13_reachable.
 
-(* a read that is given no Graph object of another store leaves quads, the
-   union-only triples and the set of graph names exactly as they were *)
+(* EVERY read - whatever graph argument it is handed, a Graph object of
+   another store included (F19 repaired) - leaves quads, the union-only
+   triples and the set of graph names exactly as they were *)
 Theorem C13_read_pure : forall d sp r,
-  R d sp -> read_nf r = true ->
+  R d sp ->
   quads (st (fst (do_read d r))) = quads (st d)
   /\ orphans (st (fst (do_read d r))) = orphans (st d)
   /\ (forall g, names (fst (do_read d r)) g <-> names d g).
@@ -31,7 +32,7 @@ Print Assumptions C13_read_pure.
 
 (* ... and the same read issued again answers the same *)
 Theorem C13_repeatable : forall d sp r,
-  R d sp -> read_nf r = true ->
+  R d sp ->
   pout_eqb (snd (do_read d r)) (snd (do_read (fst (do_read d r)) r)) = true.
 Proof. exact read_repeatable. Qed.
 Print Assumptions C13_repeatable.
@@ -39,26 +40,25 @@ Print Assumptions C13_repeatable.
 (* what the correspondence run evaluates on rdflib's snapshots: the reads
    start from the state the C02 mapping prescribes, every snapshot shows the
    same dataset as the one before it, every read answers the same twice *)
-Theorem C13_spec_ok_model_partial : forall c, pwf c -> pkf c = 0 -> spec_ok c (model_obs c) = true.
+Theorem C13_spec_ok_model : forall c, pwf c -> spec_ok c (model_obs c) = true.
 Proof. exact spec_ok_model. Qed.
-Print Assumptions C13_spec_ok_model_partial.
+Print Assumptions C13_spec_ok_model.
 
-(* reads that are handed a foreign Graph object write (finding F19) *)
-Theorem C13_foreign_read_refuted :
-  exists d r, read_nf r = false /\ quads (st (fst (do_read d r))) <> quads (st d).
-Proof. exact foreign_read_refuted. Qed.
-Print Assumptions C13_foreign_read_refuted.
-
-Theorem C13_spec_ok_refuted : exists c, pwf c /\ pkf c = 1 /\ spec_ok c (model_obs c) = false.
-Proof. exact spec_ok_refuted. Qed.
-Print Assumptions C13_spec_ok_refuted.
+(* the _graph of before the "fix:" commit for F19 copied a Graph object of
+   another store into the dataset on read paths; the repaired read does not *)
+Theorem C13_hist_foreign_read_refuted :
+  exists d c ts,
+    quads (st (fst (cg_graph_hist d (Some (GForeign c ts))))) <> quads (st d)
+    /\ quads (st (fst (do_read d (RdContains (pat_of (12, 4, 12)) (CQuad (Some (GForeign c ts))) false)))) = quads (st d).
+Proof. exact hist_foreign_read_refuted. Qed.
+Print Assumptions C13_hist_foreign_read_refuted.
 
 (* below the API, Dataset.graphs() does write: the first full pass registers
    the default graph with the store.  graphs() itself always lists the default
    graph, so the set of graphs the dataset shows does not change (C13_read_pure
    is about [names]); stated so that the write is on record. *)
 Theorem C13_graphs_registers_default_refuted :
-  exists d, read_nf RdGraphs = true /\ known (st (fst (do_read d RdGraphs))) <> known (st d).
+  exists d, known (st (fst (do_read d RdGraphs))) <> known (st d).
 Proof. exact graphs_registers_default_refuted. Qed.
 Print Assumptions C13_graphs_registers_default_refuted.
 
@@ -76,14 +76,15 @@ Print Assumptions C13_run_reading.
 
 (* non-vacuity: a dataset with an IRI-named, a blank-node-named and an empty
    known graph; restricted reads through an identifier and through a
-   same-store Graph object, graphs(), and opaque reads are all in scope,
+   same-store Graph object and through a Graph of another store, graphs(), and opaque reads are all in scope,
    accepted, and the snapshots are not empty *)
 Example C13_nonvacuous :
   let c := {| p_ds := true;
               p_build := [OAdd (1, 3, 2) (CQuad (Some (GId 1))); OAdd (8, 4, 5) (CQuad (Some (GId 3)));
                           OAdd (1, 3, 2) CTriple; OAdd (2, 4, 5) (CQuad None); OGraph (Some (GId 2))];
               p_reads := [RdGraphs; RdTriples pall CTriple (Some (GView 1)) true; RdOpaque 7;
-                          RdQuads pall (CQuad (Some (GId 3))); RdContains (pat_of (1, 3, 2)) (CQuad (Some (GView 2))) false] |} in
-  pwf c /\ pkf c = 0 /\ spec_ok c (model_obs c) = true
-  /\ length (fst (fst (model_obs c))) = 4%nat /\ length (snd (model_obs c)) = 5%nat.
+                          RdQuads pall (CQuad (Some (GId 3))); RdContains (pat_of (1, 3, 2)) (CQuad (Some (GView 2))) false;
+                          RdTriples pall CTriple (Some (GForeign 1 [(12, 4, 12)])) false] |} in
+  pwf c /\ spec_ok c (model_obs c) = true
+  /\ length (fst (fst (model_obs c))) = 4%nat /\ length (snd (model_obs c)) = 6%nat.
 Proof. cbv zeta. repeat split; vm_compute; reflexivity. Qed.
